@@ -32,9 +32,9 @@ def case(g, tier, ci):
         if o["op"] == "sq.setDelay":
             o["v"] = enc(r.choice([0, 2, 4, 6]) / SR)
     ch0 = info["chans"][0]
-    if r.random() < 0.3:
+    if ci % 3 == 0:
         ops.append({"op": "sq.setFilter", "id": "s", "ch": ch0, **r.choice([
-            {"kind": "BP", "order": 1, "orderIsInt": True, "f_cut": enc(SR / 10), "tau": None},
+            {"kind": r.choice(["BP", "hp", "Lp", "", "HPF", " LP"]), "order": 1, "orderIsInt": True, "f_cut": enc(SR / 10), "tau": None},
             {"kind": "HP", "order": 1, "orderIsInt": False, "f_cut": enc(SR / 10), "tau": None},
             {"kind": "LP", "order": 2, "orderIsInt": True, "f_cut": enc(SR / 10), "tau": enc(10 / SR)}]), "_errclass": True})
     ops += [{"op": "sq.forge", "id": "s", "delays": True, "filters": True, "time": False, "_on": True},
